@@ -2,7 +2,8 @@
 
 Drives the REAL authorization and pushed-authorization endpoints (OAuth2 and OIDC flavour, three
 client-authentication set-ups of the authorization endpoint) with request objects derived from a genuine
-one, and PAR operation sequences under a controlled clock.  Every case is a trace of operations; the
+one, and PAR operation sequences under a controlled clock, including redemptions through spellings of an
+issued request_uri that are not the issued string (SPELLINGS).  Every case is a trace of operations; the
 Gallina model (Model/Jar.v) is evaluated on the same trace inside coqc (Model/JarCheck.v chk_compact).
 The oracle below is written from the property text and uses only the generator's ground truth
 (who signed what with which algorithm; which uri was pushed when).
@@ -22,7 +23,12 @@ RULE = ("a case is a trace of operations on one real provider: authorization par
         "(2) algorithm matrix: signing alg x registered request_object_signing_alg {absent, RS256, ES256, HS256, none, list, ES256K} "
         "x provider supported sets {default, [RS256,ES256], [RS256,none]} x 3 transports x flavours; "
         "(3) random multi-fault; (4) PAR op orders over {push, redeem-first, redeem-latest, tick, re-push} exhaustive up to "
-        "length 4 (quick) / 6 (thorough), random beyond, ttl 10 s, tick 6 s. Non-trivial = at least one object/pushed request "
+        "length 4 (quick) / 6 (thorough), random beyond, ttl 10 s, tick 6 s; "
+        "(5) request_uri spellings: every spelling of an issued urn that is not the issued string (case of scheme / NID / hex "
+        "digits, surrounding whitespace, trailing fragment / query / slash, percent-encoded characters, UUID without dashes / in "
+        "braces) x every word P{V,L}^1..3 with a V (V = redeem through the spelling, L = through the exact urn: before, after, "
+        "repeatedly) + words with a signed push, ticks and two pushes, x {OAuth2, OIDC}; random words mixing spellings. "
+        "Non-trivial = at least one object/pushed request "
         "is accepted or a refusal is caused by exactly one fault.")
 ASSUMPTIONS = [
     "JWS signatures are ideal (symbolic Sig k (alg, claims)): verification succeeds iff the verifier holds key k and header/payload are the signed ones",
@@ -38,6 +44,56 @@ ASSUMPTIONS = [
 ISS = "https://example.com/"
 JWS = "<JWS>"
 LIST_PARAMS = ("scope", "response_type")
+
+
+# ------------------------------------------------------------------ spellings of an issued request_uri
+# urn = "urn:uuid:" + 36 characters.  Every entry yields a string that names the same URN to a tolerant reader but is
+# not the string that was issued (when the UUID happens to have no letter a case entry can coincide with the issued
+# string: the oracle compares strings, so that is then simply a redemption through the issued request_uri).
+def _pct(t):
+    return "".join("%%%02X" % ord(c) for c in t)
+
+
+def _flip_one(u):
+    for i in range(9, len(u)):
+        if u[i].isalpha():
+            return u[:i] + u[i].swapcase() + u[i + 1:]
+    return u
+
+
+SPELLINGS = [
+    ("hex-upper", lambda u: u[:9] + u[9:].upper()),
+    ("hex-one-letter", _flip_one),
+    ("scheme-upper", lambda u: "URN" + u[3:]),
+    ("nid-upper", lambda u: u[:4] + "UUID" + u[8:]),
+    ("prefix-upper", lambda u: "URN:UUID:" + u[9:]),
+    ("prefix-title", lambda u: "Urn:Uuid:" + u[9:]),
+    ("all-upper", lambda u: u.upper()),
+    ("swapcase", lambda u: u.swapcase()),
+    ("lead-space", lambda u: " " + u),
+    ("trail-space", lambda u: u + " "),
+    ("both-space", lambda u: "  " + u + " "),
+    ("lead-tab", lambda u: "\t" + u),
+    ("trail-newline", lambda u: u + "\n"),
+    ("trail-crlf", lambda u: u + "\r\n"),
+    ("trail-nbsp", lambda u: u + "\u00a0"),
+    ("fragment", lambda u: u + "#x"),
+    ("empty-fragment", lambda u: u + "#"),
+    ("query", lambda u: u + "?x=1"),
+    ("empty-query", lambda u: u + "?"),
+    ("trail-slash", lambda u: u + "/"),
+    ("pct-colons", lambda u: "urn%3Auuid%3A" + u[9:]),
+    ("pct-colons-lower", lambda u: "urn%3auuid%3a" + u[9:]),
+    ("pct-first-hex", lambda u: u[:9] + "%%%02x" % ord(u[9]) + u[10:]),
+    ("pct-dashes", lambda u: u[:9] + u[9:].replace("-", "%2D")),
+    ("pct-uuid", lambda u: u[:9] + _pct(u[9:])),
+    ("pct-scheme-letter", lambda u: "%75" + u[1:]),
+    ("pct-everything", lambda u: _pct(u)),
+    ("no-dashes", lambda u: u[:9] + u[9:].replace("-", "")),
+    ("braces", lambda u: u[:9] + "{" + u[9:] + "}"),
+    ("plus-for-space", lambda u: u + "+"),
+]
+SPELL = dict(SPELLINGS)
 
 
 # ------------------------------------------------------------------ Coq literals
@@ -313,12 +369,20 @@ class Runner:
                     nontrivial = True
                 continue
             if op[0] in ("authz", "redeem"):
+                red_info = {}
                 if op[0] == "redeem":
                     _, which, outer = op[:3]
                     urns = list(ledger.keys())
                     outer = dict(outer)
                     outer["request_uri"] = urns[which] if urns and -len(urns) <= which < len(urns) else "urn:uuid:11111111-0000-4000-8000-000000000000"
                     obj = op[3] if len(op) > 3 else None
+                    spelling = op[4] if len(op) > 4 else None
+                    red_info = {"which": which}
+                    if spelling is not None:
+                        # the request_uri presented is a spelling of the issued one, not the issued string
+                        outer["request_uri"] = SPELL[spelling](outer["request_uri"])
+                        red_info["spelling"] = spelling
+                        ctx.count("spelling:" + spelling)
                 else:
                     _, outer, obj = op[:3]
                     outer = dict(outer)
@@ -329,7 +393,8 @@ class Runner:
                 full = ("authz", outer, obj)
                 trace.append((full, ob))
                 real_ops.append(full)
-                rec["ops"].append({"op": "authz", "outer": {k: (JWS if k == "request" else v) for k, v in outer.items()}, "obj": obj, "out": out})
+                rec["ops"].append(dict({"op": "authz", "outer": {k: (JWS if k == "request" else v) for k, v in outer.items()}, "obj": obj, "out": out},
+                                       **red_info))
                 ctx.count("authz:" + out["k"] + ("/" + str(out.get("desc") or out.get("cls") or "")))
                 if out["k"] != "acc":
                     continue
@@ -358,10 +423,22 @@ class Runner:
                             self.judge_object(rec, "pushed", led["obj"], led["body"], out, eff.get("client_id"), reg, prov, when="redeem")
                 # content pushed under one uri must not surface through another uri / another transport
                 st = eff.get("state")
-                if st in markers and markers[st] != ru and outer.get("state") != st and not (obj and canon_claims(obj.get("claims", {})).get("state") == st):
+                from_push = st in markers and outer.get("state") != st and not (obj and canon_claims(obj.get("claims", {})).get("state") == st)
+                if from_push and markers[st] != ru:
                     src = ledger[markers[st]]
                     sig = "par-repush-extends" if self.clock.now > src["at"] + src["expires_in"] else "par-other-uri"
                     ctx.violation(sig, "content pushed under %s took effect through %r at %d" % (markers[st], ru, self.clock.now), rec)
+                # one push is redeemed at most once, whatever the spelling of the request_uri presented: redemptions are
+                # attributed to a push by its content (the unique state marker it carried), not by the uri string
+                if from_push:
+                    src = ledger[markers[st]]
+                    src.setdefault("through", []).append(ru)
+                    if len(src["through"]) > 1:
+                        ctx.violation("par-multi-redeem", "the request pushed once under %s was redeemed %d times, through request_uri %r" % (
+                            markers[st], len(src["through"]), src["through"]), rec)
+                    if self.clock.now > src["at"] + src["expires_in"] and markers[st] != ru:
+                        ctx.violation("par-expired", "pushed request %s (pushed at %d, expires_in %d) redeemed at %d through %r" % (
+                            markers[st], src["at"], src["expires_in"], self.clock.now, ru), rec)
                 # ---------------- oracle: request object clauses (by value / by request_uri)
                 if obj is not None and "request" in outer:
                     self.judge_object(rec, "value", obj, outer, out, eff.get("client_id"), reg, prov)
@@ -644,15 +721,20 @@ def gen_random(R, rng, count):
 PAR_ALPHABET = "PQRLTUX"
 
 
-def par_ops_from_word(word, tag):
+def par_ops_from_word(word, tag, spell=None):
     """P: push plain by client_1; Q: push a signed object by client_1; R: redeem the first issued uri; L: redeem the latest;
     T: tick 10 s = exactly the ttl; U: tick 1 s; X: re-push attempt by client_2 (PAR body carrying the latest issued
-    request_uri)"""
+    request_uri); V / W: redeem the latest / the first issued uri through another spelling of it (spell: a name of
+    SPELLINGS or a function position -> name)"""
     ops = []
     k = 0
     for ch in word:
         k += 1
         mk = "%s_%d" % (tag, k)
+        if ch in "VW":
+            sp = spell(k) if callable(spell) else spell
+            ops.append(("redeem", -1 if ch == "V" else 0, dict(base_outer("client_1", 0), state="red_" + mk), None, sp))
+            continue
         if ch == "P":
             ops.append(("push", "client_1", dict(base_outer("client_1", 0), state="pushed_" + mk), None))
         elif ch == "Q":
@@ -706,6 +788,46 @@ def gen_par(R, rng, quick):
                    note="par random " + word)
 
 
+def spelling_words():
+    """P followed by every sequence over {V, L} of length 1..3 that presents the spelling at least once (before, after,
+    between redemptions through the exact urn, repeatedly), then histories with a signed push, the clock and two pushes"""
+    import itertools
+    ws = []
+    for ln in (1, 2, 3):
+        for t in itertools.product("VL", repeat=ln):
+            if "V" in t:
+                ws.append("P" + "".join(t))
+    ws += ["PVVVVL", "PVVLL", "QVL", "QVLV", "QLV", "PUVUL", "PVTL", "PTVL", "PVTUVL", "PPWVRL", "PPWWVVLR", "PLPWV", "PVXL", "PXVL"]
+    return ws
+
+
+def gen_par_spelling(R, rng, quick):
+    i = 0
+    for oidc in (False, True):
+        for name, _f in SPELLINGS:
+            for word in spelling_words():
+                i += 1
+                meth = "pub" if "Q" in word else "all"
+                R.run_case("par-spelling", (oidc, meth, True, 10), {}, {}, par_ops_from_word(word, "s%d" % i, spell=name),
+                           note="par spelling %s word %s" % (name, word))
+    names = [n for n, _f in SPELLINGS]
+    for j in range(80 if quick else 2500):
+        oidc = rng.random() < 0.5
+        ln = rng.randint(4, 12)
+        word = "P" + "".join(rng.choice("PQVVVWLLRTUU") for _ in range(ln))
+        picks = {}
+
+        def pick(k, picks=picks):
+            picks[k] = rng.choice(names)
+            return picks[k]
+        ops = par_ops_from_word(word, "sr%d" % j, spell=pick)
+        for k, op in enumerate(ops):
+            if op[0] == "tick" and rng.random() < 0.5:
+                ops[k] = ("tick", rng.choice([0, 1, 4, 9, 10, 11]))
+        R.run_case("par-spelling", (oidc, rng.choice(["all", "pub"]), True, 10), {}, {}, ops,
+                   note="par spelling random word %s spellings %s" % (word, ",".join("%d:%s" % kv for kv in sorted(picks.items()))))
+
+
 # ------------------------------------------------------------------ entry points
 IMPORTS = ["Lib.Base", "Lib.PyStr", "Lib.Crypto", "Model.Jar", "Model.JarCheck"]
 CASE_T = "ccase"
@@ -730,6 +852,8 @@ def run(ctx):
         flush(R, ctx, "random")
         gen_par(R, ctx.rng, ctx.quick)
         flush(R, ctx, "par")
+        gen_par_spelling(R, ctx.rng, ctx.quick)
+        flush(R, ctx, "spelling")
     finally:
         if R.clock is not None:
             R.clock.uninstall()
@@ -768,14 +892,18 @@ def replay(ctx, rp):
         else:
             outer = {k: v for k, v in o["outer"].items() if k != "request"}
             ru = outer.get("request_uri")
-            if ru in urns:
+            if "which" in o and (o.get("spelling") is None or o["spelling"] in SPELL):
+                # a redemption of the n-th issued uri (the uris are drawn afresh on every run), possibly through a spelling
+                outer.pop("request_uri", None)
+                ops.append(("redeem", o["which"], outer, o["obj"], o.get("spelling")))
+            elif ru in urns:
                 outer.pop("request_uri")
                 ops.append(("redeem", urns.index(ru), outer, o["obj"]))
             else:
                 ops.append(("authz", outer, o["obj"]))
     try:
         R.run_case(case.get("kind", "replay"), (w["oidc"], w["methods"], w["has_par"], w["ttl"]), case.get("conf") or {},
-                   case.get("docs") or {}, ops, t0=case.get("t0", 1_700_000_000), note="replay")
+                   case.get("docs") or {}, ops, t0=case.get("t0", 1_700_000_000), note="replay of: %s" % case.get("note", ""))
         flush(R, ctx, "replay")
     finally:
         if R.clock is not None:
